@@ -586,8 +586,8 @@ End PotentialTop.
 (* =========================================================================================== *)
 (* 6. Interrupt while idle                                                                      *)
 
-Lemma idle_interrupt_next : forall fx k cl fuel e p v,
-  let c := mkCfg fx k cl None in
+Lemma idle_interrupt_next : forall k cl fuel e p v,
+  let c := mkCfg k cl None in
   exists s', run_top c fuel e p (interrupt v idle0) = (OIntr v, s')
              /\ log s' = [] /\ pcnt s' = 0 /\ late s' = 0 /\ is_idle s' = true.
 Proof.
@@ -595,8 +595,8 @@ Proof.
     rewrite exec_c_flag_set by reflexivity; eexists; (split; [reflexivity |]); vm_compute; auto.
 Qed.
 
-Lemma idle_interrupt_cleared_runs : forall fx k cl fuel e p v,
-  let c := mkCfg fx k cl None in
+Lemma idle_interrupt_cleared_runs : forall k cl fuel e p v,
+  let c := mkCfg k cl None in
   run_top c fuel e p (clear_interrupt (interrupt v idle0))
   = run_top c fuel e p (mkSt 0 [] [] [] false v [] 0 0 0).
 Proof. reflexivity. Qed.
